@@ -174,6 +174,9 @@ type World struct {
 	// OpBound / LastPoolCount are scratch state of the C07 oracle.
 	OpBound       map[string]int
 	LastPoolCount int
+	// TwoInstances is set by scenarios in which an old galaxy-ipam instance finishes a request while a new one has started:
+	// the tables MemDump reads are the new instance's, which cannot know what the old one committed after its start-up list.
+	TwoInstances bool
 	// Aux is scratch space for harnesses (e.g. the observation log of a history).
 	Aux []interface{}
 	// Writers is the set of threads that performed store writes, bindings or provider calls.
@@ -1104,6 +1107,9 @@ func (r *RecProvider) fail() bool {
 	}
 	return coop.Choose("cloudfail", 2) == 1
 }
+
+// FailNext makes the next provider call fail cleanly.
+func (r *RecProvider) FailNext() { r.FailAt = r.n + 1 }
 
 func (r *RecProvider) AssignIP(in *rpc.AssignIPRequest) (*rpc.AssignIPReply, error) {
 	coop.Point("cloud", "assign "+in.IPAddress+"->"+in.NodeName)
